@@ -517,6 +517,84 @@ def check_recompute(ctx, fb):
     ctx.check(okf, "R06-3", "full::new default cache", "successors(initial_leaf, |p| H(p, p))", "default-node cache is not built by hashing each level with itself", loc(it))
 
 
+def check_values(ctx, fb):
+    """R06-9: what is stored and what is returned, as terms: `set(i, v)` stores v itself at leaf position i, `delete(i)` writes the
+    hasher's default leaf (the value an ideal tree holds at an unset position), `get(i)` returns the node stored at leaf position i
+    (in-memory back ends; the persistent adapter's delegation is R06-4)"""
+    n = 0
+    depth = F(P(1), "depth")
+    for name in ("optimal", "full"):
+        # delete
+        it = c15.get(fb, name, "delete")
+        ctx.touch(it)
+        eng = Engine(fb, inline=lambda i: False)
+        sets = [c for p in eng.run(it) for c in p.calls(r"ZerokitMerkleTree>::set$")]
+        ok = bool(sets) and all(len(c[2]) == 3 and c[2][0] == P(1) and c[2][1] == P(2) and isinstance(c[2][2], tuple) and c[2][2][0] == "call"
+                                and c[2][2][1].endswith("Hasher::default_leaf") and c[2][2][2] == () for c in sets)
+        n += 1
+        ctx.check(ok, "R06-9", "%s::delete value" % name, "delete(i) = set(i, H::default_leaf())",
+                  "%s::delete resets the position with %s, specification set(index, H::default_leaf()): any other value (a cached node, zero of another "
+                  "hasher) makes the root differ from the other back ends after a deletion" % (name, [[sh(a, 50) for a in c[2][1:]] for c in sets][:2]), loc(it))
+        # get
+        it = c15.get(fb, name, "get")
+        ctx.touch(it)
+        eng = Engine(fb, inline=inline_only(r"ZerokitMerkleTree>::capacity$"))
+        oks = [eng.value_of(p.store, p.ret) for p in eng.run(it) if p.kind == "return" and known_ok(eng.value_of(p.store, p.ret)) is not False]
+        cap = ("bin", "Shl", mk_const("usize", 1), depth)
+        if name == "optimal":
+            want = [("call", treefx.TREES["optimal"][1] + "get_node", (P(1), depth, P(2)))]
+        else:
+            want = [("idx", F(P(1), "nodes"), ("bin", "Sub", ("bin", "Add", cap, P(2)), mk_const("usize", 1))),
+                    ("idx", F(P(1), "nodes"), ("bin", "Sub", ("bin", "Add", P(2), cap), mk_const("usize", 1)))]
+        got = [v[4][0] for v in oks if v[0] == "adt" and v[2] == "Ok"]
+        n += 1
+        ctx.check(len(got) == 1 and len(oks) == 1 and got[0] in want, "R06-9", "%s::get value" % name, "get(i) = the node stored at leaf position i",
+                  "%s::get returns %s, specification %s" % (name, [sh(g, 100) for g in got], sh(want[0], 100)), loc(it))
+        # set
+        it = c15.get(fb, name, "set")
+        ctx.touch(it)
+        eng = Engine(fb, inline=lambda i: False)
+        ok = True
+        seen = 0
+        why = ""
+        for p in eng.run(it):
+            if p.kind != "return" or known_ok(eng.value_of(p.store, p.ret)) is False:
+                continue
+            ins = p.calls(r"HashMap::<K, V, S, A>::insert$")
+            sr = p.calls(r"ZerokitMerkleTree>::set_range$")
+            seen += 1
+            if name == "optimal":
+                if not (len(ins) == 1 and ins[0][2][1] == ("tuple", (depth, P(2))) and ins[0][2][2] == P(3)):
+                    ok, why = False, "stores %s" % [[sh(a, 50) for a in c[2][1:]] for c in ins]
+            else:
+                one = lambda t: t in (("call", "std::iter::once", (P(3),)), ("array", (P(3),))) or (isinstance(t, tuple) and t[0] == "call" and t[1].endswith("::once") and t[2] == (P(3),))
+                if not (len(sr) == 1 and sr[0][2][0] == P(1) and sr[0][2][1] == P(2) and one(sr[0][2][2])):
+                    ok, why = False, "delegates %s" % [[sh(a, 50) for a in c[2][1:]] for c in sr]
+        n += 1
+        ctx.check(ok and seen >= 1, "R06-9", "%s::set value" % name, "set(i, v) stores v at leaf position i",
+                  "%s::set %s, specification the caller's leaf at (depth, index) / set_range(index, once(leaf))" % (name, why or "has no success path"), loc(it))
+    # optimal::set_range: leaf k of the batch goes to position start + k
+    it = c15.get(fb, "optimal", "set_range")
+    eng = Engine(fb, inline=lambda i: False)
+    ok, why = False, "no store loop found"
+    for b in eng.run(it):
+        if b.kind != "backedge":
+            continue
+        ins = b.calls(r"HashMap::<K, V, S, A>::insert$")
+        if len(ins) != 1:
+            continue
+        key, val = norm_loopvars(ins[0][2][1]), norm_loopvars(ins[0][2][2])
+        if key[0] == "tuple" and len(key[1]) == 2 and isinstance(key[1][1], tuple) and key[1][1][:2] == ("bin", "Add"):
+            ops = set(key[1][1][2:])
+            i = [x for x in ops if isinstance(x, tuple) and x[0] == "i"]
+            d_ok = key[1][0] == depth or (isinstance(key[1][0], tuple) and key[1][0][0] == "field" and key[1][0][2] == ("f", "depth"))
+            ok = d_ok and len(i) == 1 and ops == {i[0], P(2)} and cint(i[0][1]) == 0 and val[0] == "idx" and val[2] == i[0] and contains(val[1], P(3))
+            why = "leaf %s is stored at %s" % (sh(val, 80), sh(key, 100))
+    n += 1
+    ctx.check(ok, "R06-9", "optimal::set_range values", "leaf k of the batch is stored at (depth, start + k)", "optimal::set_range: %s" % why, loc(it))
+    ctx.floor("value-rule instances", n, 7)
+
+
 PM_DELEGATES = {
     # adapter operation -> (pmtree operation, expected leading arguments after the tree)
     "set": ("set", (P(2), P(3))), "delete": ("delete", (P(2),)), "update_next": ("update_next", (P(2),)), "set_range": ("set_range", (P(2),)),
@@ -816,6 +894,14 @@ def run(ctx):
     check_formulas(ctx, fb)
     check_recompute(ctx, fb)
     check_complete_writes(ctx, fb)
+    check_values(ctx, fb)
+    # R06-10 (shared with C08 R08-2 / C15 R15-1): the persistent adapter's batch removal rewrites the span L[0]..last(L)+1 with the
+    # default leaf exactly at the listed positions and the current leaf elsewhere (a removed position that keeps its leaf leaves the
+    # root different from the ideal tree's)
+    it = c15.get(fb, "pmtree", "remove_indices")
+    ctx.touch(it)
+    okr, whyr = c15.removal_span_rule(fb, it)
+    ctx.check(okr, "R06-10", "pmtree::remove_indices removal set", "values[i - first] = default leaf if i is listed else tree.get(i), for i in first..=last; written at first", whyr, loc(it))
     check_delegation(ctx, fb)
     check_subtree_root(ctx, fb)
     check_plain_observers(ctx, fb)
